@@ -1,5 +1,6 @@
 """Poisoning (C10), guard deref (D1), non-acquiring ops (V2/V3), heap-cell ownership (H1/H2)."""
 from common import RuleResult, Violation
+from roles import holds_no_user_value
 from facts import ty_walk
 from interp import loc_s, val_contains
 from rules_ts import analysed_fns
@@ -638,7 +639,7 @@ def rule_H1(ctx, R):
                 elif not any(e["k"] == "MEMDROP" and e.get("val") == fr[0]["result"] for e in p.events) and \
                         not any(e["k"] == "DROPQ" and e.get("val") == fr[0]["result"] for e in p.events):
                     bad = "the re-created Box is not dropped"
-                if p.ev("FORGET"):
+                if any(not holds_no_user_value(e.get("ty")) for e in p.ev("FORGET")):
                     bad = "Drop forgets a value"
         if bad:
             res.bad(Violation("H1", dropfn["path"], "drop", bad, *_floc(dropfn)))
@@ -656,7 +657,7 @@ def rule_H1(ctx, R):
             if p.kind != "ret":
                 continue
             fr = [e for e in _calls(p) if e["def"].endswith("from_raw")]
-            fg = p.ev("FORGET")
+            fg = [e for e in p.ev("FORGET") if not holds_no_user_value(e.get("ty"))]
             dip = [e for e in _calls(p) if e["def"].endswith("drop_in_place")]
             if len(fr) != 1 or vid(fr[0]["argv"][0]) != "op:a1.0":
                 bad = "%d from_raw on %s" % (len(fr), [vid(e["argv"][0]) for e in fr])
@@ -701,7 +702,7 @@ def rule_H1(ctx, R):
             if p.value[3] == 0 and lk:
                 if len(fr) != 1:
                     bad = "rejecting path frees the heap cell %d times (collection forgotten or double-dropped)" % len(fr)
-                if p.ev("FORGET"):
+                if any(not holds_no_user_value(e.get("ty")) for e in p.ev("FORGET")):
                     bad = "rejecting path forgets the collection: the user's data is leaked, never dropped"
             if p.value[3] == 1 and fr:
                 bad = "accepting path frees the heap cell it returns"
@@ -728,6 +729,13 @@ def rule_H2(ctx, R):
             by_val = top.get("inputs") and top["inputs"][0]["k"] == "adt" and top["inputs"][0]["path"] == BOXED
             if by_val:
                 res.ok("forget in " + top["path"])
+                continue
+            targ = next((a for a in t["callee"].get("args", []) if a.get("k") not in ("region", "const")), None)
+            if t["callee"]["def"].startswith("<std::mem::ManuallyDrop<T> as std::ops::Deref"):
+                st_ = t["callee"].get("impl_self") or {}
+                targ = next((a for a in st_.get("args", []) if a.get("k") not in ("region", "const")), targ)
+            if holds_no_user_value(targ):
+                res.ok("forget of %s in %s (owns no user value)" % (targ["s"], top["path"]))
                 continue
         res.bad(Violation("H2", top["path"], "primitive:" + t["callee"]["def"].split("::")[-1], "%s used in %s: values may be leaked or "
                           "duplicated" % (t["callee"]["def"], top["path"]), f["span"]["file"], t.get("line")))
